@@ -24,6 +24,7 @@ import ModVerif.Proofs.EditWorkSorted
 import ModVerif.Proofs.EditWorkSession
 import ModVerif.Proofs.EditWorkPermE
 import ModVerif.Proofs.EditWorkKeepB
+import ModVerif.Proofs.EditKeepEqD
 namespace ModVerif.Props.C16
 open ModVerif ModVerif.EditSpec ModVerif.Modfile
 
@@ -526,9 +527,9 @@ example :
     * every non-blank `Before` comment of `x0` (`Edit.BeforeKept`), and
     * the end-of-line comments the line had when the setter ran — `x1.suffix`, of which `x0.suffix` is a sublist — as
       `setIndirect` rewrites them (`Edit.sfxAfter`, `sfxAfter_rewrites_marker_only`).
-    `x1` is the line in `e1` (same id, same tokens).  Not shown: `x1.suffix = x0.suffix` (the `Keeps` relation of
-    Proofs/EditMoreKeepA.lean only records sublists, because Cleanup appends a collapsed block's own suffix comments —
-    which the invariant excludes, but the primitives are not restated for equality). -/
+    `x1` is the line in `e1` (same id, same tokens).  The `Keeps` relation of Proofs/EditMoreKeepA.lean only records
+    sublists, because Cleanup appends a collapsed block's own suffix comments — which the invariant excludes: the version
+    with `x1.suffix = x0.suffix` and `x'.suffix = sfxAfter w.indirect x0.suffix` is `comments_survive_session_eq` below. -/
 theorem comments_survive_session (e e1 e' : Edit.EFile) (ops1 ops2 : List Edit.Op) (sep rev : Bool) (want : List Edit.Want)
     (res res1 : List Bool) (hi : Edit.Inv e) (hv : Edit.RunValid e (ops1 ++ Edit.bulkOp sep want rev :: .cleanup :: ops2))
     (h : Edit.runOps Edit.applyMod e (ops1 ++ Edit.bulkOp sep want rev :: .cleanup :: ops2) [] 0 = .done e' res)
@@ -581,6 +582,102 @@ example :
            | [] => false) &&
           (Edit.viewX (Edit.cleanup e').f.syn.stmts).any (fun x => x.toks == [B "require", B "a", B "v1.2.0"] &&
             x.before.map (·.token) == [B "// keep"] && x.suffix.map (·.token) == [B "// why"])
+        | _, _ => false)
+     | .error _ => false) = true := by decide +kernel
+
+/-! ### … with EQUALITY of the end-of-line comments (Proofs/EditKeepEq{A,B,C,D}.lean) -/
+
+/-- **comments_survive_session_eq: the end-of-line comments survive EXACTLY.**  Same session and hypotheses as
+    `comments_survive_session`.  (1) In the state `e1` in which the setter runs, the line `x0` that `ops1` spares is still there:
+    same id, same tokens, its `Before` comments as a sublist (Cleanup prepends the whole-line comments of a collapsed one-line
+    block: the example below) and `x1.suffix = x0.suffix`.  (2) After the final Cleanup the rewritten line
+    `require <path> <requested version>` carries every non-blank `Before` comment of `x0`, and its end-of-line comments ARE
+    `Edit.sfxAfter w.indirect x0.suffix` — those of `x0` as `setIndirect` rewrites them (`sfxAfter_rewrites_marker_only`), nothing
+    added, nothing lost.  Route: the relation `Edit.KeepsS` (as `Edit.Keeps`, equality on `Suffix`) through every primitive —
+    updateLine, markRemoved, addLine's hinted walk, Cleanup, removeDups, the sort, insertAt, appendToBlock, moveExisting,
+    ensureBlock — and every go.mod operation (`Edit.applyMod_opKeepsS`).  The ONLY place where an end-of-line comment list can
+    grow is Cleanup collapsing a one-line block that carries an end-of-line comment of its own (`cleanup_grows_block_suffix`),
+    which the tree invariant excludes (`Edit.TreeWF.noBlockSuffix`, part of `Edit.Inv`, preserved by every operation). -/
+theorem comments_survive_session_eq (e e1 e' : Edit.EFile) (ops1 ops2 : List Edit.Op) (sep rev : Bool) (want : List Edit.Want)
+    (res res1 : List Bool) (hi : Edit.Inv e) (hv : Edit.RunValid e (ops1 ++ Edit.bulkOp sep want rev :: .cleanup :: ops2))
+    (h : Edit.runOps Edit.applyMod e (ops1 ++ Edit.bulkOp sep want rev :: .cleanup :: ops2) [] 0 = .done e' res)
+    (h1 : Edit.runOps Edit.applyMod e ops1 [] 0 = .done e1 res1)
+    (d : List Require) (r : Require) (t : List Require) (hsplit : e1.f.require = d ++ r :: t)
+    (hfirst : ∀ r' ∈ d, r'.mod.path ≠ r.mod.path) (w : Edit.Want) (hw : w ∈ want) (hwp : w.path = r.mod.path)
+    (x0 : Edit.XLine) (hx0 : x0 ∈ Edit.viewX e.f.syn.stmts) (hid0 : x0.id = r.lineId)
+    (hsp1 : Edit.Spared x0.toks x0.id e ops1)
+    (hsp2 : ∀ op ∈ ops2, ¬Edit.Targets op [B "require", autoQuote r.mod.path, w.vers]) :
+    ∃ x1 ∈ Edit.viewX e1.f.syn.stmts, (x1.id = x0.id ∧ x1.toks = x0.toks ∧ x0.before.Sublist x1.before ∧
+        x1.suffix = x0.suffix) ∧
+      ∃ x' ∈ Edit.viewX (Edit.cleanup e').f.syn.stmts, x'.toks = [B "require", autoQuote r.mod.path, w.vers] ∧
+        Edit.BeforeKept x0.before x'.before ∧ x'.suffix = Edit.sfxAfter w.indirect x0.suffix :=
+  Edit.comments_survive_session_eq e e1 e' ops1 ops2 sep rev want res res1 hi hv h h1 d r t hsplit hfirst w hw hwp x0 hx0 hid0
+    hsp1 hsp2
+
+/-- **an untouched line keeps its end-of-line comments exactly** (`Props.C08.untouched_lines_survive` with equality on
+    `Suffix`): in a session of go.mod operations with valid arguments from a state satisfying the invariant, a line that no
+    operation names and no SortBlocks removes as a duplicate (`Edit.Spared`) is in the tree after the final Cleanup with its id,
+    its tokens, its `Before` comments as a sublist and EXACTLY its `Suffix` comments -/
+theorem untouched_lines_survive_eq (e e' : Edit.EFile) (ops : List Edit.Op) (res : List Bool) (hi : Edit.Inv e)
+    (hv : Edit.RunValid e ops) (h : Edit.runOps Edit.applyMod e ops [] 0 = .done e' res)
+    (x : Edit.XLine) (hx : x ∈ Edit.viewX e.f.syn.stmts) (hsp : Edit.Spared x.toks x.id e ops) :
+    ∃ x' ∈ Edit.viewX (Edit.cleanup e').f.syn.stmts, x'.id = x.id ∧ x'.toks = x.toks ∧ x.before.Sublist x'.before ∧
+      x'.suffix = x.suffix :=
+  Edit.untouched_lines_survive_eq e e' ops res hi hv h x hx hsp
+
+/-- the static form (`untouched_lines_survive_static`) with equality on `Suffix` -/
+theorem untouched_lines_survive_static_eq (e e' : Edit.EFile) (ops : List Edit.Op) (res : List Bool) (hi : Edit.Inv e)
+    (hv : Edit.RunValid e ops) (h : Edit.runOps Edit.applyMod e ops [] 0 = .done e' res)
+    (x : Edit.XLine) (hx : x ∈ Edit.viewX e.f.syn.stmts) (hnt : ∀ op ∈ ops, ¬Edit.Targets op x.toks)
+    (hnd : Edit.NotDedupVerb x.toks) :
+    ∃ x' ∈ Edit.viewX (Edit.cleanup e').f.syn.stmts, x'.id = x.id ∧ x'.toks = x.toks ∧ x.before.Sublist x'.before ∧
+      x'.suffix = x.suffix :=
+  Edit.untouched_lines_survive_static_eq e e' ops res hi hv h x hx hnt hnd
+
+/-- one operation: a line the operation does not name (and no de-duplication removes) keeps id, tokens, `Before` comments
+    (sublist) and exactly its `Suffix` comments -/
+theorem op_untouched_line_survives_eq (e e' : Edit.EFile) (op : Edit.Op) (hv : Edit.ValidArgsAll e op) (hi : Edit.Inv e)
+    (h : Edit.applyMod e op = some (.ok e')) (x : Edit.XLine) (hx : x ∈ Edit.viewX e.f.syn.stmts)
+    (hnt : ¬Edit.Targets op x.toks) (hk : Edit.Sorts op = true → x.id ∉ Edit.kill3 e.f) :
+    ∃ x' ∈ Edit.viewX e'.f.syn.stmts, x'.id = x.id ∧ x'.toks = x.toks ∧ x.before.Sublist x'.before ∧ x'.suffix = x.suffix :=
+  Edit.applyMod_untouchedS e e' op hv hi h x hx hnt hk
+
+/-- why the tree invariant is needed: on the tree `require ( // c` + `a v1 // s` + `)` — a block carrying an end-of-line
+    comment of its own, which `Edit.TreeWF.noBlockSuffix` excludes — Cleanup collapses the block into the line
+    `require a v1 // s // c`: the line's end-of-line comments grow, the equality fails (the sublist relation of
+    `Props.C08.untouched_lines_survive` still holds) -/
+theorem cleanup_grows_block_suffix : ¬ Edit.KeepsS [] Edit.growTree (Edit.cleanupStmts Edit.growTree) :=
+  Edit.keepsS_cleanupStmts_needs_noBlockSuffix
+
+/-- non-vacuity of `comments_survive_session_eq` / `untouched_lines_survive_eq`, for both setters: the requirement `a` is the
+    only line of a block that carries the whole-line comment `// blk`; the line carries `// keep` and `// indirect; why`.
+    `ops1` (go line, an exclude, Cleanup) spares it (`Edit.sparedB`) — its Cleanup collapses the block, so in `e1` the line's
+    `Before` comments have GROWN to `// blk`, `// keep` while its `Suffix` comments are literally those of `x0`; the whole session
+    has valid arguments (`Edit.runValidB`), completes, and the end-of-line comments of the final line `require a v1.2.0` are
+    literally `sfxAfter false x0.suffix` = `// why` -/
+example :
+    (match parseStrict (B "go.mod") (B "module m\n\n// blk\nrequire (\n\t// keep\n\ta v1.0.0 // indirect; why\n)\n\nrequire b v1.0.0\n") none with
+     | .ok f =>
+       let e := Edit.load f
+       let want : List Edit.Want := [⟨B "a", B "v1.2.0", false⟩, ⟨B "c", B "v1.0.0", true⟩]
+       let ops1 : List Edit.Op := [.addGo (B "1.21"), .addExclude (B "x") (B "v1.0.0"), .cleanup]
+       let ops2 : List Edit.Op := [.addTool (B "t"), .dropExclude (B "x") (B "v1.0.0")]
+       [true, false].all fun sep =>
+       Edit.invB e && Edit.runValidB e (ops1 ++ Edit.bulkOp sep want true :: .cleanup :: ops2) &&
+       ops2.all (fun op => Edit.opVerb op != some (B "require")) &&
+       (match Edit.runOps Edit.applyMod e ops1 [] 0,
+              Edit.runOps Edit.applyMod e (ops1 ++ Edit.bulkOp sep want true :: .cleanup :: ops2) [] 0 with
+        | .done e1 _, .done e' _ =>
+          (match e1.f.require with
+           | r :: _ => r.mod.path == B "a" &&
+             (Edit.viewX e.f.syn.stmts).any (fun x0 => x0.id == r.lineId && Edit.sparedB x0.toks x0.id e ops1 &&
+               x0.before.map (·.token) == [B "// keep"] && x0.suffix.map (·.token) == [B "// indirect; why"] &&
+               (Edit.viewX e1.f.syn.stmts).any (fun x1 => x1.id == x0.id && x1.toks == x0.toks &&
+                 x1.before.map (·.token) == [B "// blk", B "// keep"] && x1.suffix == x0.suffix) &&
+               (Edit.viewX (Edit.cleanup e').f.syn.stmts).any (fun x => x.toks == [B "require", B "a", B "v1.2.0"] &&
+                 x.before.map (·.token) == [B "// blk", B "// keep"] && x.suffix == Edit.sfxAfter false x0.suffix &&
+                 x.suffix.map (·.token) == [B "// why"]))
+           | [] => false)
         | _, _ => false)
      | .error _ => false) = true := by decide +kernel
 
